@@ -29,6 +29,15 @@ TIE = {'convert.py converters, vote.py subsetters': 'correspondence',
        'component/rankscore.py Borda.scores on an uninitialised scorer (RuntimeError)': 'correspondence (C18)',
        'convert.py VoteTotals / MergedDistributions / ConstituencyTotals / PartyTotals / InvertedSimpleVotes / GroupVotesByParty / '
        'IndividualToPartyResult / SelectionToDistribution / MergedSelections / ByConstituency / Chain (Model/Convert2.v, unit 210)': 'correspondence',
+       'convert.py ScoreToSimpleVotes (Model/Cardinal.v score_to_simple, unit 27; modelled for C12)': 'correspondence of the aggregated values (sum / mean / '
+                                                                                                    'median_low, with and without the corrections) + the exact '
+                                                                                                    'statements of C13_score_*_value on the implementation',
+       'convert.py InvalidVoteEliminator (Model/Validate.v eliminate, unit 20; modelled for C20)': 'correspondence (generator and wire format of C20) + filter / '
+                                                                                                   'additivity clauses on the implementation',
+       'Model/Convert2.v same_cands (the side condition of C13_chain_additive_same_cands, unit 212)': 'correspondence with the same condition evaluated on the '
+                                                                                                      "implementation's own intermediate profiles (every prefix of the Chain run on both sub-profiles)",
+       'Model/Convert2.v dr_class / sig_round (the double-rounding class, unit 211)': 'correspondence: class bit recomputed in exact rational arithmetic, the 28 digit '
+                                                                                      'quotient of the decimal module, RoundedVotes on the Fraction, exact rounding',
        'convert.py RoundedVotes (alone, behind Chain, inside ByConstituency)': 'correspondence with Model/Convert2.v round_q (exact rounding) inside the 28 digit '
                                                                               'domain and with round_code (28 digit quotient first, InvalidOperation) everywhere, '
                                                                               '+ independent exact-rational oracle in the harness'}
@@ -53,17 +62,32 @@ RULE = ('corpus; ranked profiles over 2..5 candidates (shared ranks 25 %, trunca
         'rational rounding computed in the harness, keys and ballot count unchanged; negative decimals refused with ValueError. rounded-wide stream: '
         'counts outside the exact domain of the 28 digit decimal context (Fractions within 10^-27..10^-40 of a half or of the grid, non-terminating '
         'fractions with denominators up to 3*10^27, Decimals of 29..40 digits, results of more than 28 digits) against round_code only. '
+        'rounded-class stream (unit 211): Fractions of the rounded-wide shapes; class bit, quotient, library result and exact rounding compared with the '
+        'model; outside the class the library must give the exact rounding, with a half strictly between count and quotient it must not. same-cands stream '
+        '(unit 212): Chains of accumulating converters and inversions over two sub-profiles (the halves of one profile, or two overlapping profiles); the side '
+        'condition as computed by the model = the condition on the intermediate profiles of the implementation; where it holds conv(A+B) == conv(A)+conv(B) keys and '
+        'counts. score-simple stream (unit 27): score profiles with integer counts 0..40, sum / mean / median_low, 70 % plain configuration; aggregated values compared; '
+        'sum: per-ballot image and additivity over all splits; mean: value * number of scores == sum of scores; median_low: 2 #below < #scores <= 2 #at-most. '
+        'eliminator stream: the InvalidVoteEliminator cases of C20; kept == the ballots that pass alone, conv(A) + conv(B) == conv(A+B) for a random cut. '
+        'reuse clause: every converter object first serves a history of 1..3 other calls (other profiles over more / fewer candidates; for a Borda scorer also '
+        'set_n_candidates(k) and scores(n) on the shared scorer; Chains / ByConstituency: other data of the same shape) and must then answer as a fresh one. '
+        'MergedSelections: permutation of the distinct candidates, sorted by (appearances, sum of reversed ranks), ties in order of first appearance, recomputed on the output. '
         'non-trivial = shared rank or two ballots with the same image or a truncated ballot '
         '(rounded: a count that is not already on the grid; totals: more than one constituency; chain: more than one ballot or link); distinct by case hash')
 PARTIAL = ['RoundedVotes is not additive by nature (C13_rounded_additive_refuted, C13_chain_rounded_refuted): its per-ballot image is decided. The exact '
-           'image round_q holds of the code for counts the library\'s single 28 digit division represents exactly (sig_round 28 x == x: every count '
-           'with at most 28 significant digits; C13_rounded_code_exact) and whose result fits 28 digits; outside, the library rounds twice '
-           '(C13_rounded_double_rounding_refuted: Fraction 1/2 + 10^-30, ROUND_HALF_DOWN, 0 decimals -> 0) or raises InvalidOperation - behaviour '
-           'reproduced by Model/Convert2.v round_code and compared on the rounded-wide stream, not a clause of the property',
+           'image round_q holds of the code for every count outside the double-rounding class dr_class (no rounding boundary of the mode in the closed interval '
+           'between the count and its 28 digit quotient: C13_rounded_code_outside_class; the counts of at most 28 significant digits are the special case '
+           'C13_rounded_code_exact) whose result fits 28 digits; inside the class the library rounds twice (the three HALF modes: wrong exactly on dr_class_half, '
+           'C13_rounded_half_class_exact; for the five directed modes the class is sufficient, not exact: ROUND_DOWN does not jump at 0, ROUND_05UP not at 1 mod 5) '
+           'or raises InvalidOperation - reproduced by '
+           'Model/Convert2.v round_code, compared on the rounded-wide and rounded-class streams',
+           'ScoreToSimpleVotes: theorems for the plain configuration (no unscored_value, min_count <= 0, no truncation; sum also with a constant unscored_value) and ballot counts >= 0; sum is per-ballot exact and '
+           'additive, mean and median_low are NOT additive (C13_score_mean_additive_refuted, C13_score_median_additive_refuted) - the property\'s list of converters '
+           'does not name ScoreToSimpleVotes; what is additive are the tallies they are computed from (C13_score_tallies_additive). The corrections are compared only',
+           'MergedSelections merges rankings, not votes: no additivity of the result; its two tallies are additive (C13_merged_sel_tallies_additive)',
            'A Decimal count (the output of RoundedVotes) cannot be combined with Fraction counts by later converters (TypeError in Fraction * Decimal): '
            'Chains with RoundedVotes before an accumulating converter are outside the explored domain',
-           'ByConstituency deeper than one level, SubsettedVotes(depth > 0), IndividualToPartyMapper(independents=keep / error): not exercised; '
-           'MergedSelections is modelled and compared, no theorem (it merges rankings, not votes)']
+           'ByConstituency deeper than one level, SubsettedVotes(depth > 0), IndividualToPartyMapper(independents=keep / error): not exercised']
 TRUSTED = []
 KINDS = {'approval_simple': 1, 'first_pref': 2, 'first_n': 3, 'presence': 4, 'ranked_approval': 5, 'positional': 6,
          'condorcet': 7, 'score_ranked': 8, 'score_approval': 9, 'inverted_approval': 10, 'party': 11,
@@ -279,19 +303,31 @@ def spec(c, io, mo):
                 if da.get(k, 0) + db.get(k, 0) != dab.get(k, 0):
                     c['_class'] = 'additivity:' + c['kind']
                     return 'conv(A+B) != conv(A)+conv(B) at key %s (A=%s)' % (k, a)
-    # per-ballot exactness cannot depend on what the converter object converted before (a profile over more candidates first)
-    if c.get('_warm') and not c['kind'].startswith('sub_') and c['kind'] != 'party':
+    # per-ballot exactness cannot depend on what the converter object did before (C13_reuse_positional, C13_reuse_stateless): any history of
+    # conversions of other profiles (over more candidates) and - for a Borda scorer, the calls of Model/State.v borda_call - of
+    # scorer.set_n_candidates(k) / scorer.scores(n) on the shared scorer
+    hist = c.get('_hist') or ([['conv', c['_warm']]] if c.get('_warm') else [])
+    if hist and not c['kind'].startswith('sub_') and c['kind'] != 'party':
         fresh = run_impl(c)
         obj = converter(c)
         if obj is not None:
+            for h in hist:
+                try:
+                    if h[0] == 'conv':
+                        obj.convert(py_profile(c['kind'], h[1]))
+                    elif h[0] == 'setn' and hasattr(getattr(obj, 'rank_scorer', None), 'set_n_candidates'):
+                        obj.rank_scorer.set_n_candidates(h[1])
+                    elif h[0] == 'scores' and hasattr(obj, 'rank_scorer'):
+                        obj.rank_scorer.scores(h[1])
+                except Exception:   # noqa - a refused call in the history (ValueError, RuntimeError) is part of the history
+                    pass
             try:
-                obj.convert(py_profile(c['kind'], c['_warm']))
                 again = {json_key(enc_key(kk)): q(v) for kk, v in obj.convert(py_profile(c['kind'], votes)).items()}
             except Exception as e:   # noqa
                 again = 'raises %s' % type(e).__name__
             if again != fresh:
                 c['_class'] = 'reuse:' + c['kind']
-                return 'a converter that converted a profile over more candidates before answers %s, a fresh one %s' % (str(again)[:300], str(fresh)[:300])
+                return 'a converter that served other calls before answers %s, a fresh one %s' % (str(again)[:300], str(fresh)[:300])
     one_item = c['kind'] in ('first_pref', 'ranked_approval', 'score_ranked', 'inverted_approval', 'sub_approval', 'sub_ranked', 'sub_score')
     if one_item:
         total_in = sum(q(w) for b, w in votes if (b or c['kind'] != 'first_pref'))
@@ -403,12 +439,21 @@ def gen(rng, count):
             cfg = sorted(rng.sample(range(1, m + 1), rng.randint(0, m)))
         if not votes:
             continue
-        # another profile of the same type over MORE candidates, converted first by the same object in the reuse clause
-        m2, nb2 = m + rng.randint(1, 3), rng.randint(1, 3)
-        warm = (ranked_profile(rng, m2, nb2) if t == 'r' else approval_profile(rng, m2, nb2) if t == 'a'
-                else score_profile(rng, m2, nb2) if t == 's' else None)
+        # the history of the reuse clause: other profiles of the same type over MORE (or fewer) candidates converted first by the same
+        # object, and direct calls on a shared Borda scorer
+        hist = []
+        for _h in range(rng.randint(1, 3)):
+            m2, nb2 = max(1, m + rng.randint(-1, 3)), rng.randint(1, 3)
+            r = rng.random()
+            if kind == 'positional' and r < 0.25:
+                hist.append(['setn', rng.randint(0, 7)])
+            elif kind == 'positional' and r < 0.4:
+                hist.append(['scores', rng.randint(0, 7)])
+            elif t in ('r', 'a', 's'):
+                hist.append(['conv', ranked_profile(rng, m2, nb2) if t == 'r' else approval_profile(rng, m2, nb2) if t == 'a'
+                             else score_profile(rng, m2, nb2)])
         yield dict(unit='convert', kind=kind, cfg=cfg, votes=votes, names=rng.choice(['short', 'long']),
-                   _splits=splits_for(rng, len(votes)), _warm=warm)
+                   _splits=splits_for(rng, len(votes)), _hist=hist)
 
 
 
@@ -724,7 +769,21 @@ def rounded_spec(c, io, mo):
     if c['decimals'] < 0:
         return None if common.parse_sx(io) == [1, common.E['VALUE']] else 'negative number of decimals must be refused with ValueError'
     if c.get('wide'):
-        return None                # outside the exact domain: only model [round_code] = implementation is decided
+        # outside the exact domain model [round_code] = implementation is decided, and C13_rounded_code_outside_class on the
+        # implementation: a count outside the double-rounding class is rounded exactly (or the conversion raises InvalidOperation)
+        v = common.parse_sx(io)
+        if v[0] != 0 or c.get('chain'):
+            return None
+        got = {repr(k): common.unq(x) for k, x in v[1][1]}
+        for b, w in c['votes']:
+            x = Fraction(w[1])
+            inside = w[0] == 'frac' and dr_class_py(x, c['decimals'], c.get('method'))
+            c['_dr'] = c.get('_dr', 0) + (1 if inside else 0)
+            if not inside and got.get(repr(b)) != exact_round(x, c['decimals'], c.get('method')):
+                c['_class'] = 'rounded-outside-class'
+                return ('count %s is outside the double-rounding class (no rounding boundary between it and its 28 digit quotient) but is '
+                        'rounded to %s, exact rounding %s' % (x, got.get(repr(b)), exact_round(x, c['decimals'], c.get('method'))))
+        return None
     w = rounded_why(c)
     return w[0] if w else None
 
@@ -1015,12 +1074,27 @@ def code_spec(c, io, mo):
     if want is not None and got != want:
         return 'documented image differs: got %s, expected %s' % (got, want)
     names = code_names(c['code'])
-    if got is None or not all(n in LINEAR for n in names):
+    if c['code'] == ['merged_sel'] and c['data']['t'] == 'nsel':
+        w = merged_sel_why([l for _, l in c['data']['votes']], common.parse_sx(io)[1][1])
+        if w:
+            c['_class'] = 'merged-selections'
+            return w
+    w = code_reuse_why(c, io)
+    if w:
+        return w
+    dep = [n for n in names if n.startswith('conv:') and n[5:] in PROFILE_DEP]
+    if got is None or not all(n in LINEAR or n.startswith('conv:') for n in names) or (dep and code_links(c['code']) is None):
         return None
-    for mask in c.get('_splits') or []:
+    for mask in (c.get('_splits') or [])[:(6 if dep else 16)]:
         ab = split_data(c['data'], mask)
         if ab is None:
             continue
+        # C13_chain_additive_same_cands: links that read the candidate set off the profile are additive on sub-profiles that are, link
+        # by link, over the same candidates
+        if dep and py_same_cands(c, ab[0], ab[1]) is not True:
+            continue
+        if dep:
+            c['_dep_additivity'] = c.get('_dep_additivity', 0) + 1
         try:
             da = flat_dict('(0 %s)' % out_wire(run_code_impl(c, ab[0])))
             db = flat_dict('(0 %s)' % out_wire(run_code_impl(c, ab[1])))
@@ -1096,7 +1170,9 @@ def gen_totals(rng, count):
             if 'rounded' in code_names(code):        # Decimal counts do not mix with Fractions downstream: rounding last, or before inv
                 if code[0] == 'chain' and code[1][0][0] == 'by' and code[1][0][1][0] == 'rounded':
                     code = by
-            c.update(code=code, data=data, _splits=splits_for(rng, len(votes)))
+            c.update(code=code, data=data, _splits=splits_for(rng, len(votes)),
+                     _warm_data=[dict(t='nested', kt=kt, votes=[[k, typed_votes(rng, kt, m + 2, rng.randint(1, 3))] for k in range(1, 3)])]
+                     if rng.random() < 0.5 else [])
         elif shape == 'flat':
             kt = rng.choice(['p', 'p', 'r', 'a'])
             votes = typed_votes(rng, kt, m, rng.randint(1, 5))
@@ -1117,7 +1193,8 @@ def gen_totals(rng, count):
                 c.update(code=['sel2dist', rng.choice([1, 1, 2, '1/2'])], data=dict(t='sel', kt='p', l=l))
         else:
             nd = rng.randint(1, 4)
-            votes = [[k, rng.sample(range(1, m + 1), rng.randint(0, m))] for k in range(1, nd + 1)]
+            votes = [[k, rng.sample(range(1, m + 1), rng.randint(0, m)) if rng.random() < 0.85
+                      else [rng.randint(1, m) for _ in range(rng.randint(1, 5))]] for k in range(1, nd + 1)]     # a candidate listed twice
             data = dict(t='nsel', kt='p', votes=votes)
             code = rng.choice([['merged_sel'], ['merged_sel'], ['by', ['sel2dist', 1]], ['chain', [['by', ['sel2dist', rng.choice([1, 2])]], ['merged_dist']]],
                                ['chain', [['by', ['sel2dist', 1]], ['const_totals']]]])
@@ -1160,8 +1237,11 @@ def gen_chain(rng, count):
         if len(links) >= 3 and rng.random() < 0.3:
             links = [links[0], ['chain', links[1:]]]
         code = ['chain', links] if rng.random() < 0.85 or len(links) > 1 else links[0]
+        # other profiles of the same type (over more candidates) the same converter object converts first in the reuse clause
+        warm = [dict(t='flat', kt=kt0, votes=typed_votes(rng, kt0, m + rng.randint(0, 3), rng.randint(1, 3), shared, fractions=False, big=False))
+                for _w in range(rng.randint(0, 2))]
         yield dict(unit='code', names=rng.choice(['short', 'long']), code=code, data=dict(t='flat', kt=kt0, votes=votes),
-                   _splits=splits_for(rng, len(votes)))
+                   _splits=splits_for(rng, len(votes)), _warm_data=warm)
 
 
 def code_stream(ctx, stream, cases):
@@ -1170,6 +1250,457 @@ def code_stream(ctx, stream, cases):
         for n in set(code_names(c['code'])):
             ctx.dist['code:' + n] += 1
     ctx.differential(stream, cases, code_line, code_impl, canon=canon2, nontrivial=code_nontrivial, spec=code_spec, known_class=known_class)
+
+
+# ===========================================================================================================================
+# wave 5: the converter clauses that had no theorem until then
+# ===========================================================================================================================
+
+# ---- MergedSelections: the defining clause recomputed on the implementation's own output (C13_merged_sel_members / _sorted / _stable)
+def merged_sel_why(lists, got):
+    allc = [x for l in lists for x in l]
+    firsts = list(dict.fromkeys(allc))
+    if len(set(map(repr, got))) != len(got) or sorted(map(repr, got)) != sorted(map(repr, firsts)):
+        return 'MergedSelections loses or doubles a candidate: %s from %s' % (got, lists)
+    app = {c: sum(l.count(c) for l in lists) for c in firsts}
+    rs = {c: sum(len(l) - 1 - i for l in lists for i, x in enumerate(l) if x == c) for c in firsts}
+    for x, y in zip(got, got[1:]):
+        kx, ky = (app[x], rs[x]), (app[y], rs[y])
+        if kx < ky:
+            return ('MergedSelections: %s (appearances, sum of reversed ranks %s) is listed before %s %s' % (x, kx, y, ky))
+        if kx == ky and firsts.index(x) > firsts.index(y):
+            return 'MergedSelections: %s and %s are level %s but not in order of first appearance' % (x, y, kx)
+    return None
+
+
+# ---- Chain additivity under the candidate-set side condition (Model/Convert2.v same_cands, unit 212)
+def code_links(code):
+    """the links of a Chain of accumulating converters / InvertedSimpleVotes (Model/Convert2.v links_of); None for anything else"""
+    t = code[0]
+    if t in ('conv', 'inv'):
+        return [code]
+    if t == 'chain':
+        out = []
+        for x in code[1]:
+            l = code_links(x)
+            if l is None:
+                return None
+            out += l
+        return out
+    return None
+
+
+def profile_cands(kind, prof):
+    """what a profile-dependent converter reads off the profile it is handed besides the ballots: the candidates its keys name"""
+    out = set()
+    for key in prof:
+        if kind in ('positional', 'condorcet'):
+            for item in key:
+                out.update(item if isinstance(item, frozenset) else [item])
+        elif kind == 'score_ranked':
+            out.update(cand for cand, _ in key)
+        else:
+            out.update(key)
+    return out
+
+
+def py_same_cands(c, da, db):
+    """same_cands on the implementation's own intermediate profiles: True / False; None when a link raises"""
+    links = code_links(c['code'])
+    if links is None:
+        return False
+    _LONG[0] = c.get('names') == 'long'
+    try:
+        pa, pb = py_data(da, c), py_data(db, c)
+        for l in links:
+            if l[0] == 'conv' and l[1] in PROFILE_DEP and profile_cands(l[1], pa) != profile_cands(l[1], pb):
+                return False
+            k = build_converter(l, c)
+            pa, pb = k.convert(pa), k.convert(pb)
+    except Exception:    # noqa
+        return None
+    return True
+
+
+def same_cands_line(c):
+    kt = c['data']['kt']
+    return '%d (%s %s %s)' % (BLOCK['C13'] + 2, code_sx(c['code'], c), fvotes_sx(kt, c['a']), fvotes_sx(kt, c['b']))
+
+
+def same_cands_impl(c):
+    r = py_same_cands(c, dict(c['data'], votes=c['a']), dict(c['data'], votes=c['b']))
+    return '(0 %d)' % (1 if r else 0)
+
+
+def canon_plain(c, wire):
+    v = common.parse_sx(wire)
+    if v[0] == 4:
+        return ('unmodelled',)
+    return repr(v)
+
+
+def same_cands_spec(c, io, mo):
+    """the theorem on the implementation: side condition true => conv(A + B) == conv(A) + conv(B), keys and counts"""
+    if common.parse_sx(io) != [0, 1]:
+        return None
+    ab = merge(c['a'], c['b'])
+    try:
+        da = flat_dict('(0 %s)' % out_wire(run_code_impl(c, dict(c['data'], votes=c['a']))))
+        db = flat_dict('(0 %s)' % out_wire(run_code_impl(c, dict(c['data'], votes=c['b']))))
+        dab = flat_dict('(0 %s)' % out_wire(run_code_impl(c, dict(c['data'], votes=ab))))
+    except Exception:    # noqa
+        return None
+    if da is None or db is None or dab is None:
+        return None
+    if set(dab) != set(da) | set(db):
+        c['_class'] = 'additivity-keys'
+        return 'same candidates at every link, but the keys of conv(A+B) are not those of conv(A) and conv(B): %s' % sorted(set(dab) ^ (set(da) | set(db)))
+    for k in dab:
+        if da.get(k, 0) + db.get(k, 0) != dab[k]:
+            c['_class'] = 'additivity-same-cands'
+            return 'same candidates at every link, but conv(A+B) != conv(A)+conv(B) at key %s' % k
+    return None
+
+
+def gen_same_cands(rng, count):
+    """two sub-profiles for a Chain: the two halves of one profile, or two overlapping profiles (equal ballots pool their counts)"""
+    n = 0
+    for c in gen_chain(rng, count * 3):
+        if n >= count:
+            return
+        if code_links(c['code']) is None or any(x[0] == 'rounded' for x in code_links(c['code'])):
+            continue
+        votes = c['data']['votes']
+        kt = c['data']['kt']
+        if rng.random() < 0.6 and len(votes) >= 2:
+            mask = [rng.random() < 0.5 for _ in votes]
+            a = [v for v, m in zip(votes, mask) if m] or votes[:1]
+            b = [v for v, m in zip(votes, mask) if not m] or votes[-1:]
+        else:
+            a = votes
+            m = 1 + max([0] + [x for bal, _ in votes for x in _flat_ints(bal)])
+            b = typed_votes(rng, kt, max(2, min(m - 1, 5)), rng.randint(1, 4), fractions=False, big=False)
+            if rng.random() < 0.5:
+                b = b + [[bal, rng.randint(1, 3)] for bal, _ in votes if repr(bal) not in {repr(x) for x, _ in b}]
+        n += 1
+        yield dict(unit='same_cands', names=c['names'], code=c['code'], data=dict(t='flat', kt=kt, votes=[]), a=a, b=b)
+
+
+def _flat_ints(o):
+    if isinstance(o, int):
+        return [o]
+    if isinstance(o, (list, tuple)):
+        return [x for y in o for x in _flat_ints(y) if not isinstance(y, str)]
+    return []
+
+
+def same_cands_stream(ctx, stream, cases):
+    cases = list(cases)
+    ctx.differential(stream, cases, same_cands_line, same_cands_impl, canon=canon_plain, nontrivial=lambda c: True, spec=same_cands_spec)
+    for c in cases:
+        dep = any(l[0] == 'conv' and l[1] in PROFILE_DEP for l in code_links(c['code']) or [])
+        ctx.dist['same-cands:%s' % ('dependent-link' if dep else 'independent-links')] += 1
+
+
+# ---- reuse of one converter object for the codes of unit 210 (C13_reuse_stateless, C13_reuse_positional)
+def code_reuse_why(c, io):
+    warm = c.get('_warm_data')
+    if not warm or common.parse_sx(io)[0] != 0:
+        return None
+    _LONG[0] = c.get('names') == 'long'
+    obj = build_converter(c['code'], c)
+    for w in warm:
+        try:
+            obj.convert(py_data(w, c))
+        except Exception:    # noqa
+            pass
+    try:
+        again = '(0 %s)' % out_wire(obj.convert(py_data(c['data'], c)))
+    except Exception as e:    # noqa
+        again = 'raises %s' % type(e).__name__
+    if canon2(c, again) != canon2(c, io):
+        c['_class'] = 'reuse:' + '+'.join(code_names(c['code']))
+        return 'a converter that converted other profiles before answers %s, a fresh one %s' % (again[:300], io[:300])
+    return None
+
+
+# ---- ScoreToSimpleVotes (Model/Cardinal.v score_to_simple, unit 27): sum = per-ballot exact and additive; mean / median = the exact
+# ---- statements C13_score_mean_value / C13_score_median_value; corrections (unscored_value, min_count, truncation) compared only
+def ss_cfg_sx(cf):
+    un = {'none': '()', 'min': '1'}.get(cf['unscored'], None)
+    if un is None:
+        un = '(%s)' % sx(q(cf['unscored']))
+    return '(%d %s %d %s %s)' % ({'mean': 0, 'sum': 1, 'median_low': 2}[cf['fn']], un, cf['min_count'], sx(q(cf['trunc'])), sx(q(cf['bottom'])))
+
+
+def ss_line(c):
+    return '%d (%s %s)' % (U['score_to_simple'], ss_cfg_sx(c['cfg']), sx([[[[cc, q(s_)] for cc, s_ in sorted(b)], w] for b, w in c['votes']]))
+
+
+def ss_run(c, votes=None):
+    import votelib.convert as conv
+    _LONG[0] = c.get('names') == 'long'
+    cf = c['cfg']
+    num = lambda x: int(q(x)) if q(x).denominator == 1 else q(x)
+    un = None if cf['unscored'] == 'none' else 'min' if cf['unscored'] == 'min' else num(cf['unscored'])
+    obj = conv.ScoreToSimpleVotes(function=cf['fn'], unscored_value=un, min_count=cf['min_count'], truncation=num(cf['trunc']),
+                                  bottom_value=num(cf['bottom']))
+    prof = {frozenset((cname(cc), num(s_)) for cc, s_ in b): w for b, w in (c['votes'] if votes is None else votes)}
+    return {cnum(k): q(v) for k, v in obj.convert(prof).items()}
+
+
+def ss_impl(c):
+    return '(0 (%s))' % ' '.join('(%d %s)' % (k, sx(v)) for k, v in ss_run(c).items())
+
+
+def ss_canon(c, wire):
+    v = common.parse_sx(wire)
+    if v[0] != 0:
+        return ('err', v[1])
+    return ('ok', tuple(sorted((k, common.unq(x)) for k, x in v[1])))
+
+
+def ss_plain(cf):
+    return cf['unscored'] == 'none' and cf['min_count'] <= 0 and q(cf['trunc']) <= 0
+
+
+def ss_spec(c, io, mo):
+    v = common.parse_sx(io)
+    cf, votes = c['cfg'], c['votes']
+    if v[0] == 0 and cf['fn'] == 'sum' and cf['unscored'] not in ('none', 'min') and cf['min_count'] <= 0 and q(cf['trunc']) <= 0:
+        # C13_score_sum_unscored_value / _additive: a constant unscored_value is given by every ballot to each candidate of the profile it
+        # does not score; additive on the candidates both sub-profiles score
+        got = {k: common.unq(x) for k, x in v[1]}
+        u = q(cf['unscored'])
+        n_all = sum(w for _, w in votes)
+        for cc in got:
+            want = sum(w * dict((a, q(b_)) for a, b_ in b).get(cc, u) for b, w in votes)
+            if got[cc] != want:
+                c['_class'] = 'score-sum-unscored'
+                return 'sum aggregate (unscored_value %s) of candidate %d is %s, the ballots give %s' % (u, cc, got[cc], want)
+        for mask in c.get('_splits') or []:
+            a = [x for x, m in zip(votes, mask) if m]
+            b = [x for x, m in zip(votes, mask) if not m]
+            if not a or not b:
+                continue
+            da, db = ss_run(c, a), ss_run(c, b)
+            for k in set(da) & set(db):
+                if da[k] + db[k] != got.get(k, 0):
+                    c['_class'] = 'additivity:score-sum-unscored'
+                    return 'ScoreToSimpleVotes(sum, unscored_value): conv(A+B) != conv(A)+conv(B) at candidate %s scored in A and in B (A=%s)' % (k, a)
+        return None
+    if v[0] != 0 or not ss_plain(cf):
+        return None
+    got = {k: common.unq(x) for k, x in v[1]}
+    given = {}
+    for b, w in votes:
+        for cc, s_ in b:
+            given.setdefault(cc, []).extend([q(s_)] * w)
+    if set(got) != set(given):
+        return 'candidates of the aggregate %s are not the candidates scored on some ballot %s' % (sorted(got), sorted(given))
+    for cc, sc in given.items():
+        x = got[cc]
+        if cf['fn'] == 'sum' and x != sum(sc):
+            c['_class'] = 'score-sum'
+            return 'sum aggregate of candidate %d is %s, the ballots give %s' % (cc, x, sum(sc))
+        if cf['fn'] == 'mean' and (not sc or x * len(sc) != sum(sc)):
+            c['_class'] = 'score-mean'
+            return 'mean aggregate of candidate %d is %s: sum of scores %s over %d scores' % (cc, x, sum(sc), len(sc))
+        if cf['fn'] == 'median_low' and not (2 * sum(1 for y in sc if y < x) < len(sc) <= 2 * sum(1 for y in sc if y <= x)):
+            c['_class'] = 'score-median'
+            return 'median_low aggregate of candidate %d is %s, scores %s' % (cc, x, sorted(sc))
+    if cf['fn'] == 'sum':
+        for mask in c.get('_splits') or []:
+            a = [x for x, m in zip(votes, mask) if m]
+            b = [x for x, m in zip(votes, mask) if not m]
+            if not a or not b:
+                continue
+            da, db = ss_run(c, a), ss_run(c, b)
+            for k in set(da) | set(db) | set(got):
+                if da.get(k, 0) + db.get(k, 0) != got.get(k, 0):
+                    c['_class'] = 'additivity:score-sum'
+                    return 'ScoreToSimpleVotes(sum): conv(A+B) != conv(A)+conv(B) at candidate %s (A=%s)' % (k, a)
+    return None
+
+
+def gen_score_simple(rng, count):
+    for _ in range(count):
+        m = rng.randint(1, 5)
+        votes = [[b, rng.choice([0, 1, 1, 2, 3, 7, 40])] for b, _ in score_profile(rng, m, rng.randint(1, 6))]
+        fn = rng.choice(['sum', 'sum', 'mean', 'median_low'])
+        r = rng.random()
+        if r < 0.6:
+            cf = dict(fn=fn, unscored='none', min_count=0, trunc='0', bottom='0')
+        elif r < 0.75:        # the profile-dependent image: a constant for the candidates a ballot does not score
+            cf = dict(fn='sum', unscored=rng.choice(['0', '1', '2', '-1', '1/2']), min_count=0, trunc='0', bottom='0')
+        else:
+            cf = dict(fn=fn, unscored=rng.choice(['none', 'min', '0', '2']), min_count=rng.choice([0, 0, 2, 5]),
+                      trunc=rng.choice(['0', '0', '1', '2', '1/4', '1/10']), bottom=rng.choice(['0', '-1']))
+        yield dict(unit='score_simple', cfg=cf, votes=votes, names=rng.choice(['short', 'long']), _splits=splits_for(rng, len(votes)))
+
+
+def score_simple_stream(ctx, stream, cases):
+    cases = list(cases)
+    for c in cases:
+        ctx.dist['score-simple:%s%s' % (c['cfg']['fn'], '' if ss_plain(c['cfg']) else '-unscored-constant' if (c['cfg']['fn'] == 'sum' and c['cfg']['unscored'] not in ('none', 'min') and c['cfg']['min_count'] <= 0 and q(c['cfg']['trunc']) <= 0) else '-corrected')] += 1
+    ctx.differential(stream, cases, ss_line, ss_impl, canon=ss_canon, nontrivial=lambda c: len(c['votes']) > 1, spec=ss_spec)
+
+
+# ---- InvalidVoteEliminator as a converter (Model/Validate.v eliminate, unit 20; generator and wire format of C20): a filter -
+# ---- every ballot judged alone, the union converts to the union (C13_eliminator_*)
+def elim_run(c20, c, idxs):
+    import votelib.convert as conv
+    votes = {c20.pyobj(c['ballots'][i]): i + 1 for i in idxs}
+    return list(conv.InvalidVoteEliminator(c20.validator_obj(c['cfg'])).convert(votes).values())
+
+
+def elim_stream(ctx, stream, count):
+    from props import c20
+
+    def spec(c, io, mo):
+        v = common.parse_sx(io)
+        n = len(c['ballots'])
+        if v[0] != 0:
+            return None          # CandidateError / crash of the validator: no conversion (C20's business)
+        full = v[1]
+        try:
+            alone = [elim_run(c20, c, [i]) for i in range(n)]
+            cut = c.get('_cut', n // 2)
+            ra, rb = elim_run(c20, c, range(cut)), elim_run(c20, c, range(cut, n))
+        except Exception as e:    # noqa
+            return 'a sub-profile of a profile the eliminator converts raises %s' % type(e).__name__
+        if [x for one in alone for x in one] != full:
+            c['_class'] = 'eliminator-filter'
+            return 'InvalidVoteEliminator: kept %s, the ballots that pass on their own %s' % (full, alone)
+        if ra + rb != full:
+            c['_class'] = 'additivity:eliminator'
+            return 'InvalidVoteEliminator: conv(A+B) = %s, conv(A) + conv(B) = %s' % (full, ra + rb)
+        return None
+    cases = []
+    for c in c20.gen_eliminate(ctx.rng, count):
+        if len(cases) >= count:
+            break
+        c['_cut'] = ctx.rng.randint(0, len(c['ballots']))
+        cases.append(c)
+    ctx.differential(stream, cases, c20.model_line, c20.impl, canon=c20.canon, nontrivial=lambda c: len(c['ballots']) > 1, spec=spec)
+
+
+# ---- the double-rounding class of RoundedVotes (Model/Convert2.v dr_class, unit 211)
+def sig_round_py(x, prec=28):
+    """x rounded half-even to prec significant digits, in integer arithmetic (what Decimal(n) / Decimal(d) gives at context precision prec)"""
+    if x == 0:
+        return Fraction(0)
+    a = abs(x)
+    e = len(str(a.numerator)) - len(str(a.denominator))
+    if Fraction(10) ** e > a:
+        e -= 1
+    scale = Fraction(10) ** (prec - 1 - e)
+    t = a * scale
+    lo = t.numerator // t.denominator
+    rem = t - lo
+    if rem > Fraction(1, 2) or (rem == Fraction(1, 2) and lo % 2 == 1):
+        lo += 1
+    r = Fraction(lo) / scale
+    return -r if x < 0 else r
+
+
+def dr_class_py(x, d, method, prec=28):
+    import math
+    v = sig_round_py(x, prec)
+    if v == x:
+        return False
+    lo, hi = min(x, v), max(x, v)
+    jl, jh = math.ceil(lo * 2 * 10 ** d), math.floor(hi * 2 * 10 ** d)
+    half = method in (None, 'ROUND_HALF_UP', 'ROUND_HALF_DOWN', 'ROUND_HALF_EVEN')
+    return jl <= jh and (jl < jh or (jl % 2 == 1) == half)
+
+
+def class_line(c):
+    return '%d (28 %d %d %s)' % (BLOCK['C13'] + 1, MODE_NUM[c.get('method')], c['decimals'], sx(Fraction(c['x'])))
+
+
+def class_impl(c):
+    """(class bit, the quotient of the decimal module, RoundedVotes on the Fraction, exact rounding)"""
+    import decimal
+    import votelib.convert as conv
+    x, d, m = Fraction(c['x']), c['decimals'], c.get('method')
+    v = Fraction(decimal.Decimal(x.numerator) / decimal.Decimal(x.denominator))
+    lo, hi = min(x, v), max(x, v)
+    import math
+    jl, jh = math.ceil(lo * 2 * 10 ** d), math.floor(hi * 2 * 10 ** d)
+    half = m in (None, 'ROUND_HALF_UP', 'ROUND_HALF_DOWN', 'ROUND_HALF_EVEN')
+    bit = v != x and jl <= jh and (jl < jh or (jl % 2 == 1) == half)
+    rv = conv.RoundedVotes(d) if m is None else conv.RoundedVotes(d, round_method=getattr(decimal, m))
+    try:
+        code = '(0 %s)' % sx(Fraction(rv.convert({'A': x})['A']))
+    except decimal.InvalidOperation:
+        code = '(1 %d)' % common.E['OTHER']
+    # the exact class of the HALF modes: a half strictly inside, or an end point IS a half and its tie goes away from the other end
+    s2 = 2 * 10 ** d
+    odd_int = lambda t: t.denominator == 1 and t.numerator % 2 == 1
+    inside = any(j % 2 == 1 and lo * s2 < j < hi * s2 for j in range(math.floor(lo * s2), math.ceil(hi * s2) + 1))
+    ebit = v != x and (inside or (odd_int(lo * s2) and exact_round(lo, d, m) < lo) or (odd_int(hi * s2) and exact_round(hi, d, m) > hi))
+    return '(0 (%d %s %s %s %d))' % (1 if bit else 0, sx(v), code, sx(exact_round(x, d, m)), 1 if ebit else 0)
+
+
+def class_canon(c, wire):
+    v = common.parse_sx(wire)
+    if v[0] != 0:
+        return repr(v)
+    bit, quo, code, exact, ebit = v[1]
+    return (bit, common.unq(quo), ('ok', common.unq(code[1])) if code[0] == 0 else ('err', code[1]), common.unq(exact), ebit)
+
+
+def class_spec(c, io, mo):
+    """C13_rounded_code_outside_class and C13_rounded_half_between_refuted on the implementation"""
+    v = common.parse_sx(io)
+    if v[0] != 0:
+        return None
+    bit, quo, code, exact, ebit = class_canon(c, io)
+    x, d, m = Fraction(c['x']), c['decimals'], c.get('method')
+    if quo != sig_round_py(x):
+        return 'Decimal(n) / Decimal(d) = %s is not the count rounded half-even to 28 significant digits (%s)' % (quo, sig_round_py(x))
+    c['_in_class'] = bit
+    if code[0] != 'ok':
+        return None
+    c['_wrong'] = code[1] != exact
+    if not bit and code[1] != exact:
+        c['_class'] = 'rounded-outside-class'
+        return 'outside the double-rounding class, but RoundedVotes gives %s, exact rounding %s' % (code[1], exact)
+    half = m in (None, 'ROUND_HALF_UP', 'ROUND_HALF_DOWN', 'ROUND_HALF_EVEN')
+    if half and bool(ebit) != (code[1] != exact):
+        # C13_rounded_code_half_exact: for the HALF modes the library is wrong exactly on dr_class_half
+        c['_class'] = 'rounded-half-class'
+        return ('HALF mode: the count is %s the exact double-rounding class, but RoundedVotes gives %s, exact rounding %s'
+                % ('inside' if ebit else 'outside', code[1], exact))
+    if half and quo != x:
+        import math
+        lo, hi = min(x, quo), max(x, quo)
+        strictly = any(j % 2 == 1 and lo * 2 * 10 ** d < j < hi * 2 * 10 ** d
+                       for j in range(math.ceil(lo * 2 * 10 ** d), math.floor(hi * 2 * 10 ** d) + 1))
+        if strictly and code[1] == exact:
+            return 'a half lies strictly between the count and its 28 digit quotient, yet RoundedVotes gives the exact rounding %s' % exact
+    return None
+
+
+def gen_class(rng, count):
+    for c in gen_wide(rng, count * 2):
+        if count <= 0:
+            return
+        w = c['votes'][0][1]
+        if w[0] != 'frac':
+            continue
+        count -= 1
+        yield dict(unit='class', decimals=c['decimals'], method=c['method'], x=w[1], shape=c['wide'])
+
+
+def class_stream(ctx, stream, cases):
+    cases = list(cases)
+    ctx.differential(stream, cases, class_line, class_impl, canon=class_canon, nontrivial=lambda c: True, spec=class_spec)
+    for c in cases:
+        ctx.dist['rounded-class:%s' % ('inside' if c.get('_in_class') else 'outside')] += 1
+        if c.get('_in_class') and c.get('_wrong'):
+            ctx.dist['rounded-class:inside-and-wrong'] += 1
 
 
 def corpus():
@@ -1181,9 +1712,12 @@ def corpus():
 def explore(ctx, widen=1):
     kw = dict(canon=canon, nontrivial=nontrivial, spec=spec, known_class=known_class)
     cp = list(corpus())
-    ctx.differential('corpus', [c for c in cp if c.get('unit') not in ('rounded', 'code')], model_line, impl, **kw)
+    ctx.differential('corpus', [c for c in cp if c.get('unit', 'convert') == 'convert'], model_line, impl, **kw)
     rounded_stream(ctx, 'corpus-rounded', [c for c in cp if c.get('unit') == 'rounded'])
     code_stream(ctx, 'corpus-code', [c for c in cp if c.get('unit') == 'code'])
+    class_stream(ctx, 'corpus-class', [c for c in cp if c.get('unit') == 'class'])
+    same_cands_stream(ctx, 'corpus-same-cands', [c for c in cp if c.get('unit') == 'same_cands'])
+    score_simple_stream(ctx, 'corpus-score-simple', [c for c in cp if c.get('unit') == 'score_simple'])
     # rank scorers the translator rejected are tied by this stream alone: denser (DESIGN.md 2.1 fallback)
     ctx.differential('random', gen(ctx.rng, ctx.n(3000, 40000) * widen * (3 if 'Rankscore' in ctx.fallback else 1)), model_line, impl, **kw)
     code_stream(ctx, 'totals', gen_totals(ctx.rng, ctx.n(1200, 15000) * widen))
@@ -1195,6 +1729,10 @@ def explore(ctx, widen=1):
             yield c
     rounded_stream(ctx, 'rounded', paths(gen_rounded(ctx.rng, ctx.n(2500, 30000) * widen)))
     rounded_stream(ctx, 'rounded-wide', gen_wide(ctx.rng, ctx.n(600, 8000) * widen))
+    class_stream(ctx, 'rounded-class', gen_class(ctx.rng, ctx.n(800, 10000) * widen))
+    same_cands_stream(ctx, 'same-cands', gen_same_cands(ctx.rng, ctx.n(800, 10000) * widen))
+    score_simple_stream(ctx, 'score-simple', gen_score_simple(ctx.rng, ctx.n(1500, 20000) * widen))
+    elim_stream(ctx, 'eliminator', ctx.n(400, 5000) * widen)
 
 
 def replay(ctx, case, stream=None):
@@ -1202,4 +1740,20 @@ def replay(ctx, case, stream=None):
         return rounded_stream(ctx, 'replay', [case])
     if case.get('unit') == 'code':
         return code_stream(ctx, 'replay', [case])
+    if case.get('unit') == 'class':
+        return class_stream(ctx, 'replay', [case])
+    if case.get('unit') == 'same_cands':
+        return same_cands_stream(ctx, 'replay', [case])
+    if case.get('unit') == 'score_simple':
+        return score_simple_stream(ctx, 'replay', [case])
+    if case.get('unit') == 'eliminate':
+        from props import c20
+
+        def one(rng, count):
+            yield case
+        saved, c20.gen_eliminate = c20.gen_eliminate, one
+        try:
+            return elim_stream(ctx, 'replay', 1)
+        finally:
+            c20.gen_eliminate = saved
     ctx.differential('replay', [case], model_line, impl, canon=canon, nontrivial=nontrivial, spec=spec, known_class=known_class)
